@@ -210,7 +210,7 @@ func judge(c Case) (*vf.Failure, string) {
 
 func TestConfigurations(t *testing.T) {
 	defer vf.AfterCheck(t)
-	vf.Checks(112, 2500)
+	vf.Checks(112, 800)
 	rapid.Check(t, func(t *rapid.T) {
 		cfg := gen.Config{MaxStmts: rapid.IntRange(3, 8).Draw(t, "size"), MaxDepth: rapid.IntRange(1, 3).Draw(t, "depth"), Funcs: 3, Structs: true, AllowRTE: rapid.IntRange(0, 2).Draw(t, "rte") == 0, Bias: rapid.SampledFrom([]string{"", "heap"}).Draw(t, "bias")}
 		var prog *gen.Program
